@@ -83,6 +83,45 @@ def extract(repo):
             "\n".join("  " + l for l in e3[0].split("\n")), "",
             "/-- `let container_width = ..` -/", "def containerWidth (screen_width : Nat) : Nat :=", "  " + e4[0], "",
             "/-- `if screen_width < k { return Err(..) }` -/", "def minScreenWidth : Nat := %s" % m.group(1), "",
+            ]
+    # draw_item: (match_start_char, match_end_char)
+    nb = re.sub(r"\s+", " ", body)
+    m = re.search(r"let \(match_start_char, match_end_char\) = match matched_item\.matched_range \{ "
+                  r"Some\(MatchRange::Chars\(ref matched_indices\)\) => \{ (.*?) \} "
+                  r"Some\(MatchRange::ByteRange\(match_start, match_end\)\) => \{ "
+                  r"let match_start_char = item_text\[(\w*)\.\.(\w*)\]\.chars\(\)\.count\(\); "
+                  r"let diff = item_text\[(\w*)\.\.(\w*)\]\.chars\(\)\.count\(\); "
+                  r"\(match_start_char, match_start_char \+ diff\) \} None => \((\d+), (\d+)\), \};", nb)
+    BOUND = {"": ".open", "match_start": ".start", "match_end": ".stop"}
+    if not m or any(x not in BOUND for x in m.group(2, 3, 4, 5)):
+        raise R.Unsupported("draw_item: (match_start_char, match_end_char) not understood")
+    chars_arm = re.sub(r"matched_indices\[([^\]]*)\]", r"idx_at(\1)", m.group(1))
+    e5 = R.translate(chars_arm, {"matched_indices.is_empty()": ("isEmpty", "Bool"), "matched_indices.len()": ("len", "Nat")},
+                     funcs={"idx_at": ("accAt v", ["Nat"], "Nat")})
+    if e5[1] != "(Nat × Nat)":
+        raise R.Unsupported("draw_item: the Chars arm has type %s" % e5[1])
+    out += ["/-- a bound of a slice of `item_text`: absent, `match_start`, `match_end` -/",
+            "inductive Bound | open | start | stop", "  deriving DecidableEq, Repr", "",
+            "/-- `draw_item`, the `Chars(matched_indices)` arm of `(match_start_char, match_end_char)` -/",
+            "def matchStartEndChars (isEmpty : Bool) (v : List Nat) (len : Nat) : Nat × Nat :=",
+            "\n".join("  " + l for l in e5[0].split("\n")), "",
+            "/-- the `ByteRange` arm: `match_start_char` = chars of `item_text[a..b]`, `diff` = chars of `item_text[c..d]`, result",
+            "    `(match_start_char, match_start_char + diff)` -/",
+            "def startSlice : Bound × Bound := (%s, %s)" % (BOUND[m.group(2)], BOUND[m.group(3)]),
+            "def diffSlice : Bound × Bound := (%s, %s)" % (BOUND[m.group(4)], BOUND[m.group(5)]), "",
+            "/-- the `None` arm -/", "def matchStartEndNone : Nat × Nat := (%s, %s)" % (m.group(6), m.group(7)), ""]
+    # calc_skip_width
+    b = re.sub(r"\s+", " ", re.sub(r"//[^\n]*", "", R.fn_body(sel, "calc_skip_width")[0])).strip()
+    m = re.fullmatch(r"let skip = if self\.skip_to_pattern\.is_none\(\) \{ (\d+) \} else \{ let regex = self\.skip_to_pattern\.as_ref\(\)\.unwrap\(\); "
+                     r"if let Some\(mat\) = regex\.find\(text\) \{ text\[\.\.mat\.start\(\)\]\.width_cjk\(\) \} else \{ (\d+) \} \}; (.*)", b)
+    if not m:
+        raise R.Unsupported("calc_skip_width: not `skip = no pattern ? k : (first match ? width before it : k'); tail`")
+    e6 = R.translate(m.group(3), {}, locals_={"skip": "Nat"})
+    if e6[1] not in ("Nat", "Lit"):
+        raise R.Unsupported("calc_skip_width: tail has type %s" % e6[1])
+    out += ["/-- `calc_skip_width`: `skip` without a pattern, without a match, and what is returned for a given `skip` -/",
+            "def skipNoPattern : Nat := %s" % m.group(1), "def skipNoMatch : Nat := %s" % m.group(2),
+            "def skipTail (skip : Nat) : Nat :=", "  " + e6[0], "",
             "end SkimModel.Generated.ReshapeFns", ""]
     return "\n".join(out)
 
